@@ -855,7 +855,14 @@ func unop(instr *ssa.UnOp, x value) value {
 	}
 	switch instr.Op {
 	case token.ARROW: // receive
-		v, ok := <-x.(chan value)
+		var v value
+		var ok bool
+		select {
+		case v, ok = <-x.(chan value):
+		default:
+			// goroutines run inline, so nobody can make this channel ready
+			panic(blockedForever{"receive on a channel nobody can send to"})
+		}
 		if !ok {
 			v = zero(instr.X.Type().Underlying().(*types.Chan).Elem())
 		}
